@@ -172,6 +172,10 @@ def _alphabet(ctx, enc):
     raise AnalysisError("anchor missing: the encoder's alphabet constant")
 
 
+class NarrowedChar(Exception):
+    pass
+
+
 def _decoder_table(ctx, dec):
     """char value -> digit constant, and the block of the default arm."""
     lps = dec.loops()
@@ -186,6 +190,15 @@ def _decoder_table(ctx, dec):
                     raise AnalysisError("idiom not recognised: decoder arm for %r at %s" % (chr(v), dec.where(d)))
                 table[v] = int(vals[0])
             return info, table
+    # no table: is the character narrowed before it is classified?
+    for b in dec.blocks:
+        if b["cleanup"]:
+            continue
+        for i, st in enumerate(b["stmts"]):
+            if st["k"] == "assign" and st["rv"]["k"] == "cast" and st["rv"]["ty"]["s"] in ("u8", "i8", "u16", "i16"):
+                src = st["rv"]["op"]
+                if src["k"] in ("copy", "move") and dec.local_ty(src["place"]["local"])["s"] == "char":
+                    raise NarrowedChar(dec.where(b["i"], i))
     raise AnalysisError("anchor missing: the decoder's match on characters")
 
 
@@ -206,7 +219,11 @@ def c15_r3(ctx):
         ctx.viol((enc.id, "alphabet-not-permutation"), "the alphabet is not a permutation of the 62 alphanumerics (%r)" % A, enc.where(abb))
     else:
         ctx.ok(62)
-    info, table = _decoder_table(ctx, dec)
+    try:
+        info, table = _decoder_table(ctx, dec)
+    except NarrowedChar as e:
+        ctx.viol((dec.id, "character-narrowed"), "the decoder classifies `c as u8/u16` instead of the character: code points that differ from an alphabet character only above the kept bits are accepted as that digit (foreign characters decode)", str(e))
+        return
     for ch, val in sorted(table.items()):
         ctx.inst("decoder %r -> %d" % (chr(ch), val))
     bad = []
@@ -324,7 +341,12 @@ def c15_r4(ctx):
             ctx.ok()
         else:
             ctx.viol((dec.id, "overflow-not-enforced"), "a value needing more than %s bytes can decode successfully (or index past the result array)" % res_len, dec.where(bb, idx))
-    info, table = _decoder_table(ctx, dec)
+    try:
+        info, table = _decoder_table(ctx, dec)
+    except NarrowedChar as e:
+        ctx.inst("default arm", str(e))
+        ctx.viol((dec.id, "character-narrowed"), "foreign characters are not rejected: the decoder classifies a truncating cast of the character", str(e))
+        return
     ctx.inst("default arm", dec.where(info["otherwise"]))
     r = dec.reach([info["otherwise"]])
     errs = [(bb, idx) for (bb, idx, rv, pl) in dec.constructs("ticket::FromHumanReadableError", "InvalidCharacter") if bb in r]
@@ -859,3 +881,109 @@ def c20_r3(ctx):
                 ctx.viol((e.id, "resolution-index"), "the status printed beside path i is not resolutions[i] of the same result", p.where)
                 continue
         ctx.ok()
+
+
+@rule("C19.R5", floor=2)
+def c19_r5(ctx):
+    """Route shape: the filter each endpoint closure is mapped over is a chain containing the
+    method filter `get`, one static segment, exactly as many `param::<String>()` as the
+    closure has request parameters, and `path::end()` - without `end()` a request with extra
+    path segments (`/files/<hash>/../x`) would be served."""
+    R = Roles(ctx.P)
+    s = R.entry("serve")
+    eps = {c.id for c in _endpoints(ctx)}
+    hosts = [f for f in ctx.P.fns.values() if f.id.startswith(s.id) and any(c.path == "warp::Filter::map" for c in f.calls)]
+    ctx.need(hosts, "the function building the warp filters")
+    for f in hosts:
+        for m in [c for c in f.calls if c.path == "warp::Filter::map"]:
+            cl = None
+            for o in f.origins_of_operand(m.args[1]):
+                if o[0][0] == "agg" and o[0][4] == "closure":
+                    cl = f.blocks[o[0][2]]["stmts"][o[0][3]]["rv"]["kind"]["body"]
+            if cl not in eps:
+                continue
+            ctx.inst("route of %s" % cl, m.where)
+            leaves = []
+            seen = set()
+
+            def collect(op):
+                for o in f.origins_of_operand(op):
+                    if o[0][0] != "call" or len(o) != 1:
+                        leaves.append("?" + fmt_origin(o))
+                        continue
+                    c = f.call_at[o[0][2]]
+                    if c.bb in seen:
+                        continue
+                    seen.add(c.bb)
+                    if c.path == "warp::Filter::and":
+                        collect(c.args[0])
+                        collect(c.args[1])
+                    else:
+                        leaves.append(c.path)
+            collect(m.args[0])
+            nparams = ctx.P.fns[cl].nargs - 1
+            n_end = leaves.count("warp::filters::path::end")
+            n_par = leaves.count("warp::filters::path::param")
+            n_static = leaves.count("warp::filters::path::path")
+            n_get = leaves.count("warp::filters::method::get")
+            other = [x for x in leaves if x not in ("warp::filters::path::end", "warp::filters::path::param", "warp::filters::path::path",
+                                                     "warp::filters::method::get", "warp::filters::any::any")]
+            if n_end != 1:
+                ctx.viol((f.id, "route-without-end", cl), "the route of this endpoint does not end with path::end(): requests with extra path segments are served instead of answered 404", m.where)
+            elif n_par != nparams or n_static != 1 or n_get != 1 or other:
+                ctx.viol((f.id, "route-shape", cl), "the route is not GET /<static>/<%d names>/end (found %s)" % (nparams, leaves), m.where)
+            else:
+                ctx.ok()
+
+
+@rule("C16.R4", floor=2)
+def c16_r4(ctx):
+    """What is decoded is the file: the byte buffer given to bincode::deserialize is filled
+    only by `read_to_end` on the opened state file (or by a chunk loop that appends exactly
+    buffer[..n] of each read); nothing else is appended to it."""
+    de = [c for f in prod(ctx.P) for c in f.calls if c.path.endswith("bincode::deserialize")]
+    ctx.need(de, "deserialize sites")
+    for c in de:
+        f = c.fn
+        ctx.inst("decoded buffer in %s" % f.id, c.where)
+        buf = f.vars_of_operand(c.args[0])
+        writers = []
+        for x in f.calls:
+            if not x.args or x is c:
+                continue
+            if f.vars_of_operand(x.args[0]) == buf or (len(x.args) > 1 and f.vars_of_operand(x.args[1]) == buf):
+                if erase_generics(x.path) in ("std::vec::Vec::new", "std::ops::Deref::deref", "std::vec::Vec::len"):
+                    continue
+                writers.append(x)
+        ok = True
+        n_fill = 0
+        for x in writers:
+            if x.path == "std::io::Read::read_to_end" and f.vars_of_operand(x.args[1]) == buf:
+                fo = f.origins_of_operand(x.args[0])
+                if all(is_call(o, "system::System::open") and o[1:] == (("variant", "Ok"), ("field", 0)) for o in fo) and fo:
+                    n_fill += 1
+                    continue
+                ok = False
+                ctx.viol((f.id, "decodes-other-file"), "the bytes decoded are not read from the opened state file", x.where)
+            elif x.name in ("extend_from_slice", "extend", "push", "append", "resize", "insert", "write", "write_all"):
+                # accept exactly buffer[..n] of a read on that buffer
+                good = False
+                if x.name == "extend_from_slice":
+                    for o in f.origins_of_operand(x.args[1]):
+                        if is_call(o) and "Index" in o[0][3] and "RangeTo" in (f.call_at[o[0][2]].callee.get("full") or ""):
+                            ix = f.call_at[o[0][2]]
+                            for r in f.origins_of_operand(ix.args[1]):
+                                if r[0][0] == "agg":
+                                    rv = f.blocks[r[0][2]]["stmts"][r[0][3]]["rv"]
+                                    so = f.origins_of_operand(rv["ops"][0])
+                                    if so and all(is_call(z, "std::io::Read::read") and z[1:] == (("variant", "Ok"), ("field", 0)) for z in so):
+                                        good = True
+                if good:
+                    n_fill += 1
+                else:
+                    ok = False
+                    ctx.viol((f.id, "decoded-bytes-padded"), "bytes that were not read from the state file are appended to the buffer that is decoded (`%s`): a truncated file can decode successfully" % x.name, x.where)
+        if ok and n_fill >= 1:
+            ctx.ok()
+        elif ok:
+            ctx.viol((f.id, "decoded-buffer-unfilled"), "cannot see the state file being read into the decoded buffer", c.where)
